@@ -289,6 +289,8 @@ func RunCheck(spec *PropSpec, opts RunOpts) int {
 					if o.Result == "fail" || o.Result == "panic" || contains(o.Known, c.KnownID) {
 						validated++
 						knownConfirmed = append(knownConfirmed, c)
+					} else if c.Candidate {
+						inconc = append(inconc, fmt.Sprintf("floating-point obligation %q of %s%v undecided: the bit-precise query timed out and the real-model candidate does not reproduce natively", c.Label, c.Harness, c.Shape))
 					} else if !final {
 						mism = append(mism, c)
 					} else {
@@ -305,6 +307,8 @@ func RunCheck(spec *PropSpec, opts RunOpts) int {
 					if o.Result == "fail" || o.Result == "panic" || (c.KnownID != "" && contains(o.Known, c.KnownID)) {
 						validated++
 						confirmed = append(confirmed, c)
+					} else if c.Candidate {
+						inconc = append(inconc, fmt.Sprintf("floating-point obligation %q of %s%v undecided: the bit-precise query timed out and the real-model candidate does not reproduce natively", c.Label, c.Harness, c.Shape))
 					} else if !final {
 						mism = append(mism, c)
 					} else {
